@@ -10,7 +10,9 @@ ROOT = os.path.dirname(os.path.dirname(os.path.abspath(__file__)))
 KNOWN = [
     ("C01", "codec-library/pyppmd-roundtrip",
      "the third-party PPMd codec (pyppmd 1.1.1), driven directly without any py7zr code, fails to round-trip some incompressible inputs (e.g. 180000 random bytes, order 6, mem 4 MiB: "
-     "decoder raises 'L1595: Corrupted input data' or returns wrong bytes); py7zr inherits the failure for PPMd chains. Not repairable inside py7zr (prebuilt wheel)."),
+     "decoder raises 'L1595: Corrupted input data' or returns wrong bytes), and its encoder produces different (undecodable) output when the same stream is fed in chunks, e.g. behind a pybcj filter "
+     "with a 64 KiB model. The classifier replays the exact chunk sequence through pybcj+pyppmd alone; only when that fails is a violation given this key. py7zr inherits the failure for PPMd chains. "
+     "Not repairable inside py7zr (prebuilt wheels)."),
     ("C07", "codec-library/pyppmd-roundtrip", "same pyppmd defect as C01: the reference reader cannot decode what pyppmd's encoder produced for that input either."),
     ("C08", "codec-library/pyppmd-roundtrip", "same pyppmd defect as C01, met in an append session with a PPMd chain."),
     ("C01", "write-raises/RecursionError/mv",
